@@ -768,7 +768,7 @@ func (g *generator) enter() {
 	g.storeLengths()
 }
 
-func (g *generator) enterNextFinallyFrame() (canContinue bool) {
+func (g *generator) enterNextFinallyFrame() (canContinue bool, ex *Exception) {
 	vm := g.vm
 	callStackLen := len(vm.callStack)
 
@@ -777,10 +777,12 @@ func (g *generator) enterNextFinallyFrame() (canContinue bool) {
 		if int(tf.callStackLen) != callStackLen { // have we breached the function boundary?
 			break
 		}
-		ex := vm.restoreStacks(tf.iterLen, tf.refLen)
+		ex = vm.restoreStacks(tf.iterLen, tf.refLen)
 		if ex != nil {
-			vm.throw(ex)
-			return true
+			// an iterator's return() threw: the exception is handled by the generator's own try statements, or
+			// completes the generator (it must not escape as a Go panic past the frames pushed by enterNext())
+			ex = vm.handleThrow(ex)
+			return ex == nil, ex
 		}
 		if tf.finallyPos >= 0 {
 			vm.sp = int(tf.sp)
@@ -790,7 +792,7 @@ func (g *generator) enterNextFinallyFrame() (canContinue bool) {
 			tf.catchPos = tryPanicMarker
 			tf.finallyPos = -1
 			tf.finallyRet = -2 // -1 would cause it to continue after leaveFinally
-			return true
+			return true, nil
 		}
 		vm.popTryFrame()
 	}
@@ -823,7 +825,11 @@ func (g *generator) step() (res Value, resultType resultType, ex *Exception) {
 			}
 
 			if vm.prg != nil && vm.pc == -2 { // normal exit from finally
-				if g.enterNextFinallyFrame() {
+				var canContinue bool
+				if canContinue, ex = g.enterNextFinallyFrame(); ex != nil {
+					return
+				}
+				if canContinue {
 					continue
 				}
 
@@ -1063,7 +1069,13 @@ func (g *generatorObject) _return(v Value) Value {
 	g.gen.returning = v
 	g.state = genStateExecuting
 	g.gen.enterNext()
-	canContinue := g.gen.enterNextFinallyFrame()
+	canContinue, ex := g.gen.enterNextFinallyFrame()
+	if ex != nil {
+		vm := g.gen.vm
+		vm.popTryFrame()
+		vm.popCtx()
+		return g.step(nil, resultNormal, ex)
+	}
 	if !canContinue {
 		vm := g.gen.vm
 		g.state = genStateCompleted
